@@ -158,7 +158,7 @@ def replay(ck, wd, cases, seed, maxd, label, hist=False):
     r = sh([exe, os.path.join(wd, 'ntt_inputs.txt'), cpath, tpath], timeout=3000)
     if r.returncode != 0:
         ck.note('infrastructure: NTT driver rc=%s %s' % (r.returncode, r.stderr[-200:]))
-    v = validate_trace(wd, 'Trace_NTT', 'Trace_NTT.cfg', tpath, env={'NTTIN': os.path.join(wd, 'ntt_inputs.json')}, min_chunk=300, max_rejects=60)
+    v = validate_trace(wd, 'Trace_NTT', 'Trace_NTT.cfg', tpath, env={'NTTIN': os.path.join(wd, 'ntt_inputs.json')}, min_chunk=300, max_rejects=16)
     ck.add_validation(v, label)
     ck.sample_trace(tpath, n=4)
     for msg in v['infra']:
